@@ -5,7 +5,7 @@
      u0 :: _       -> the entries of L before the first occurrence of u0's stop (all of L dropped when it does not occur),
                       each unchanged except that an unmarked one is marked t, followed by exactly the update's stops in
                       order, carrying its arrival, departure and track, stamped t and not marked past. *)
-From GV Require Import Base.Prelude Model.Journal Proofs.JournalProofs.
+From GV Require Import Base.Prelude Model.Journal Proofs.JournalProofs Proofs.HistoryProofs.
 
 (* an applied update (one not ignored by the unassigned-update rule) yields exactly that list *)
 Theorem C14_shape : forall tr u t, ignored tr u = false ->
@@ -38,6 +38,32 @@ Print Assumptions C14_first_stop_found.
 Theorem C14_history_invariant : forall feeds, state_ok (fold_left apply_feed feeds jinit).
 Proof. exact history_ok. Qed.
 Print Assumptions C14_history_invariant.
+
+(* ---- over whole histories, through BuildJournal's state: the stop list of the entry of a UID is a function of that UID's
+   EVENTS alone (events uid feeds: its applied updates - those not ignored by the unassigned-update rule - and the feeds
+   from which it vanished, in feed order), and EVERY entry of the list is accounted for by exactly one of them: it carries the
+   stop, arrival, departure and track of one stop of that update and that update's feed time as last-observed (recorded
+   from an earlier feed and unchanged since); it is unmarked when that update is the last event, and otherwise marked past
+   with the time of the VERY NEXT event - the first feed that no longer reported it ---- *)
+Theorem C14_stops_from_events : forall uid feeds tr,
+  alookup uid (st_trips (fold_left apply_feed feeds jinit)) = Some tr -> jt_stops tr = stops_of (events uid feeds).
+Proof. exact journal_stops_are_event_stops. Qed.
+Print Assumptions C14_stops_from_events.
+Theorem C14_every_entry_accounted : forall uid feeds tr,
+  alookup uid (st_trips (fold_left apply_feed feeds jinit)) = Some tr ->
+  Forall (fun e => exists pre us t post u, events uid feeds = pre ++ EvUpdate us t :: post /\ In u us /\
+            js_stop e = stop_id_or_empty u /\ js_arr e = us_arr u /\ js_dep e = us_dep u /\ js_track e = us_track u /\ js_last e = t /\
+            js_marked e = match post with [] => None | nxt :: _ => Some (ev_time nxt) end) (jt_stops tr).
+Proof. exact journal_entries_born. Qed.
+Print Assumptions C14_every_entry_accounted.
+(* non-vacuity: a three-feed history of one trip (update A B C at 10; update B C at 20; absent at 30) has these events *)
+Example C14_events_example :
+  let st s := {| us_stop := Some s; us_arr := None; us_dep := None; us_track := None |} in
+  let u stops := {| ut_id := "067800_L..N"; ut_route := "L"; ut_dir := 2; ut_date := 1699938000; ut_time := 0; ut_vehicle := Some (Some "v"); ut_stops := stops |} in
+  let feeds := [{| jf_created := 10; jf_trips := [u [st "A"; st "B"; st "C"]] |}; {| jf_created := 20; jf_trips := [u [st "B"; st "C"]] |}; {| jf_created := 30; jf_trips := [] |}] in
+  events "1699938000_L..N" feeds = [EvUpdate [st "A"; st "B"; st "C"] 10; EvUpdate [st "B"; st "C"] 20; EvVanish 30] /\
+  map js_marked (stops_of (events "1699938000_L..N" feeds)) = [Some 20; Some 30; Some 30].
+Proof. vm_compute. split; reflexivity. Qed.
 
 Example C14_example :
   let L := [fresh 5 {| us_stop := Some "A"; us_arr := Some 7; us_dep := None; us_track := None |};
